@@ -1,19 +1,32 @@
 (* Congr.v — position congruence: everything the engine computes about a position (attack
-   maps, pseudo-legal and legal move lists, check / mate annotations, the static score, the
-   alpha-beta value, the minimax oracle, the root search) depends only on the OBSERVABLE
-   position — piece placement, side to move, current castling rights, current en-passant
-   target — and not on the rest of the board state (depth and older entries of the stacks,
-   the move counter, the position key, the repetition map), provided the clocks are far from
-   their limits and the top repetition count is not the draw count.
+   maps, pseudo-legal and legal move lists, check / mate annotations, game ending, the static
+   score, the alpha-beta value, the minimax oracle, the root search) depends only on the
+   OBSERVABLE position — piece placement, side to move, current castling rights, current
+   en-passant target — and not on the rest of the board state (depth and older entries of the
+   stacks, the move counter, the position key, the repetition map), provided the clocks are
+   far from their limits and the top repetition count is not the draw count.
 
-   Method: a relational reading [rres R r1 r2] of two outcomes (same kind: Ok/Ok related by R,
+   Method: a relational reading [rres R r1 r2] of two outcomes (same KIND: Ok/Ok related by R,
    Err/Err with the same error, Panic/Panic), a [bind] rule for it, and one simulation lemma
-   per board primitive.  The same simulation section is instantiated twice: with the
-   observable-position relation, and with "equal up to the turn field" (neither apply nor undo
-   reads or writes the turn).
+   per board primitive.  The apply_move simulation is generic in the relation and instantiated
+   twice: with "equal piece sets, equal turn, equal n-entry PREFIXES of the en-passant and
+   castling-rights stacks" ([rel n]; [same_pos] is [rel 1]; apply_move takes [rel (S n)] to
+   [rel (S (S n))], undo_move takes it back), and with "equal up to the turn field".
 
-   Proofs only; the one hypothesis of the main section is [undo_apply] (proved in
-   UndoProofs.v by another file of the development). *)
+   The development is hypothesis-free: it does NOT use undo_apply (whose unconditional form is
+   false for en-passant moves with a wrong victim, see UndoProofs.v), nor WF, nor any invariant
+   of the position: two boards with equal piece sets evolve in lock step whatever the moves
+   are, so the make/unmake brackets of the generator and of the search are followed
+   relationally instead of being collapsed to the identity.  What is NOT claimed here is that
+   the board handed back equals the board passed in (that is GenFrame.v / SearchFrame.v);
+   only that the two boards handed back are related again and carry the caller's counters.
+
+   Main results (Section Main):  apply_move_rel / apply_move_congr / apply_move_kind,
+   undo_move_rel, gen_moves_congr, remove_invalid_congr, gen_annotated_congr,
+   game_ending_congr, score_congr, ab_congr / ab_kind / ab_value_congr, mm_congr,
+   root_values_congr, search_congr;  ab_abt (the maximizing flag is the side to move at every
+   node);  obs_same_pos, same_pos_same_key, ab_key_det (the [key_det] premise of Interleave.v
+   on a collision-free set of boards).  Proofs only. *)
 From Coq Require Import Lia ZArith.
 From ChessV Require Import Search Abs.
 From ChessV Require Import BoardLemmas WfReflect ZobristProofs CountFrame.
@@ -1702,3 +1715,368 @@ Proof.
 Qed.
 
 End Main.
+
+(* ------------------------------------------------------------------ *)
+(** * the [maximizing] flag of the search is the side to move, at every node *)
+
+Ltac binv H x Hx :=
+  match type of H with
+  | bind ?r _ = Ok _ => destruct r as [x| |] eqn:Hx; cbn [bind] in H; [|discriminate H|discriminate H]
+  end.
+
+Section TurnInv.
+Variable T : ztable.
+Variables rook_t bishop_t : N -> N -> N.
+
+Notation remove_invalid := (remove_invalid T rook_t bishop_t).
+Notation gen_moves := (gen_moves T rook_t bishop_t).
+Notation effect_of := (effect_of T rook_t bishop_t).
+Notation annotate := (annotate T rook_t bishop_t).
+Notation gen_annotated := (gen_annotated T rook_t bishop_t).
+Notation game_ending := (game_ending T rook_t bishop_t).
+Notation score := (score T rook_t bishop_t).
+Notation ab := (Search.ab T rook_t bishop_t).
+
+Lemma remove_invalid_turn c cands : forall b ms b',
+  remove_invalid b c cands = Ok (ms, b') -> turn b' = turn b.
+Proof.
+  induction cands as [|m rest IH]; intros b ms b' HR; cbn [MoveGen.remove_invalid] in HR.
+  - inversion HR. reflexivity.
+  - binv HR a HA. apply unwrap_ok_eq in HA. cbv zeta in HR.
+    binv HR u HU. apply unwrap_ok_eq in HU.
+    binv HR x HX. destruct x as [r g]. cbv beta iota in HR. inversion HR; subst b'.
+    rewrite (IH _ _ _ HX), (undo_move_turn T _ _ _ HU), (apply_move_turn T _ _ _ HA). reflexivity.
+Qed.
+
+Lemma gen_moves_turn b c ms b' : gen_moves b c = Ok (ms, b') -> turn b' = turn b.
+Proof.
+  unfold MoveGen.gen_moves. intro HR. binv HR cands HC. exact (remove_invalid_turn _ _ _ _ _ HR).
+Qed.
+
+Lemma effect_of_turn b c m e b' : effect_of b c m = Ok (e, b') -> turn b' = turn b.
+Proof.
+  unfold MoveGen.effect_of. intro HR. binv HR a HA. apply unwrap_ok_eq in HA.
+  binv HR x HX. destruct x as [r g]. cbv beta iota zeta in HR.
+  binv HR u HU. apply unwrap_ok_eq in HU. inversion HR; subst b'.
+  rewrite (undo_move_turn T _ _ _ HU), (gen_moves_turn _ _ _ _ HX), (apply_move_turn T _ _ _ HA). reflexivity.
+Qed.
+
+Lemma annotate_turn c ms : forall b l b', annotate b c ms = Ok (l, b') -> turn b' = turn b.
+Proof.
+  induction ms as [|m rest IH]; intros b l b' HR; cbn [MoveGen.annotate] in HR.
+  - inversion HR. reflexivity.
+  - binv HR x HX. destruct x as [e g]. cbv beta iota in HR.
+    binv HR y HY. destruct y as [r g']. cbv beta iota in HR. inversion HR; subst b'.
+    rewrite (IH _ _ _ HY), (effect_of_turn _ _ _ _ _ HX). reflexivity.
+Qed.
+
+Lemma gen_annotated_turn b c l b' : gen_annotated b c = Ok (l, b') -> turn b' = turn b.
+Proof.
+  unfold MoveGen.gen_annotated. intro HR. binv HR x HX. destruct x as [ms g]. cbv beta iota in HR.
+  rewrite (annotate_turn _ _ _ _ _ HR), (gen_moves_turn _ _ _ _ HX). reflexivity.
+Qed.
+
+Lemma game_ending_turn b c e b' : game_ending b c = Ok (e, b') -> turn b' = turn b.
+Proof.
+  unfold Eval.game_ending. intro HR. binv HR s HS.
+  destruct (s =? REPETITION_DRAW_COUNT); [inversion HR; reflexivity|].
+  binv HR h HH. destruct (HALFMOVE_DRAW_THRESHOLD <=? h); [inversion HR; reflexivity|].
+  binv HR x HX. destruct x as [ms g]. cbv beta iota zeta in HR.
+  destruct (is_nil ms); inversion HR; subst b'; exact (gen_moves_turn _ _ _ _ HX).
+Qed.
+
+Lemma score_turn b c d v b' : score b c d = Ok (v, b') -> turn b' = turn b.
+Proof.
+  unfold Eval.score. intro HR. binv HR s HS.
+  destruct (s =? SCORE_REPETITION_COUNT); [inversion HR; reflexivity|].
+  binv HR x HX. destruct x as [e g]. cbv beta iota in HR.
+  pose proof (game_ending_turn _ _ _ _ HX) as HT.
+  destruct e as [[| |]|].
+  - binv HR z HZ. inversion HR; subst b'. exact HT.
+  - inversion HR; subst b'. exact HT.
+  - inversion HR; subst b'. exact HT.
+  - binv HR z HZ. inversion HR; subst b'. exact HT.
+Qed.
+
+Lemma lp_gen_turn rec upd stop :
+  (forall x w v x', rec x w = Ok (v, x') -> turn x' = turn x) ->
+  forall ms bd value w v b', lp_gen T rec upd stop ms bd value w = Ok (v, b') -> turn b' = turn bd.
+Proof.
+  intros Hrec. induction ms as [|me rest IH]; intros bd value w v b' HR; cbn [lp_gen] in HR.
+  - inversion HR. reflexivity.
+  - binv HR a HA. apply unwrap_ok_eq in HA.
+    binv HR x HX. destruct x as [v1 x1]. cbv beta iota zeta in HR.
+    binv HR u HU. apply unwrap_ok_eq in HU.
+    assert (HT : turn (toggle_turn u) = turn bd).
+    { unfold toggle_turn at 1. bsimpl.
+      rewrite (undo_move_turn T _ _ _ HU), (Hrec _ _ _ _ HX). unfold toggle_turn. bsimpl.
+      rewrite (apply_move_turn T _ _ _ HA). apply opp_c_involutive. }
+    destruct (stop (upd w (upd value v1))).
+    + inversion HR; subst b'. exact HT.
+    + rewrite (IH _ _ _ _ _ HR). exact HT.
+Qed.
+
+Lemma ab_turn d : forall b alpha beta mx v b', ab d b alpha beta mx = Ok (v, b') -> turn b' = turn b.
+Proof.
+  induction d as [|d IH]; intros b alpha beta mx v b' HR.
+  - rewrite ab_0 in HR. exact (score_turn _ _ _ _ _ HR).
+  - rewrite ab_S in HR. binv HR x HX. destruct x as [l g]. cbv beta iota zeta in HR.
+    pose proof (gen_annotated_turn _ _ _ _ HX) as HT.
+    destruct (is_nil (sort_moves g l)).
+    + rewrite (score_turn _ _ _ _ _ HR). exact HT.
+    + destruct mx.
+      * rewrite (lp_gen_turn _ _ _ (fun x w v0 x' => IH x w beta false v0 x') _ _ _ _ _ _ HR). exact HT.
+      * rewrite (lp_gen_turn _ _ _ (fun x w v0 x' => IH x alpha w true v0 x') _ _ _ _ _ _ HR). exact HT.
+Qed.
+
+(* the search with the flag recomputed from the board at every node *)
+Fixpoint abt (d : nat) (b : board) (alpha beta : Z) {struct d} : res (Z * board) :=
+  match d with
+  | O => score b (turn b) 0
+  | S d' =>
+      let* (cands, b1) := gen_annotated b (turn b) in
+      let sorted := sort_moves b1 cands in
+      if is_nil sorted then score b1 (turn b1) (N.of_nat d)
+      else if maximize (turn b) then
+        lp_gen T (fun bd al => abt d' bd al beta) Z.max (fun al' => (beta <=? al')%Z) sorted b1 I16_MIN alpha
+      else
+        lp_gen T (fun bd be => abt d' bd alpha be) Z.min (fun be' => (be' <=? alpha)%Z) sorted b1 I16_MAX beta
+  end.
+
+Lemma lp_gen_ext c rec1 rec2 upd stop :
+  (forall x w, turn x = opp_c c -> rec1 x w = rec2 x w) ->
+  (forall x w v x', rec1 x w = Ok (v, x') -> turn x' = turn x) ->
+  forall ms bd value w, turn bd = c ->
+  lp_gen T rec1 upd stop ms bd value w = lp_gen T rec2 upd stop ms bd value w.
+Proof.
+  intros Hext Hturn. induction ms as [|me rest IH]; intros bd value w HT; cbn [lp_gen]; [reflexivity|].
+  destruct (unwrap (apply_move T (fst me) bd)) as [a| |] eqn:HA; cbn [bind]; try reflexivity.
+  apply unwrap_ok_eq in HA.
+  assert (HTa : turn (toggle_turn a) = opp_c c).
+  { unfold toggle_turn. bsimpl. rewrite (apply_move_turn T _ _ _ HA), HT. reflexivity. }
+  rewrite <- (Hext _ w HTa).
+  destruct (rec1 (toggle_turn a) w) as [[v1 x1]| |] eqn:HX; cbn [bind]; try reflexivity.
+  cbv beta iota zeta.
+  destruct (unwrap (undo_move T (fst me) x1)) as [u| |] eqn:HU; cbn [bind]; try reflexivity.
+  apply unwrap_ok_eq in HU.
+  destruct (stop (upd w (upd value v1))); [reflexivity|].
+  apply IH. unfold toggle_turn. bsimpl.
+  rewrite (undo_move_turn T _ _ _ HU), (Hturn _ _ _ _ HX), HTa. apply opp_c_involutive.
+Qed.
+
+Lemma maximize_opp c : maximize (opp_c c) = negb (maximize c).
+Proof. destruct c; reflexivity. Qed.
+
+(** [Search.ab] started with [maximizing] = "White to move" keeps that relation at every node
+    of its recursion: it is the search whose flag is read off the board *)
+Theorem ab_abt d : forall b alpha beta, ab d b alpha beta (maximize (turn b)) = abt d b alpha beta.
+Proof.
+  induction d as [|d IH]; intros b alpha beta; [reflexivity|].
+  rewrite ab_S. cbn [abt].
+  destruct (gen_annotated b (turn b)) as [[l g]| |] eqn:HX; cbn [bind]; try reflexivity.
+  cbv beta iota zeta. pose proof (gen_annotated_turn _ _ _ _ HX) as HT.
+  destruct (is_nil (sort_moves g l)); [reflexivity|].
+  destruct (maximize (turn b)) eqn:HM.
+  - apply (lp_gen_ext (turn b)); [| |exact HT].
+    + intros x w Hx. rewrite <- IH, Hx, maximize_opp, HM. reflexivity.
+    + intros x w v x'. apply ab_turn.
+  - apply (lp_gen_ext (turn b)); [| |exact HT].
+    + intros x w Hx. rewrite <- IH, Hx, maximize_opp, HM. reflexivity.
+    + intros x w v x'. apply ab_turn.
+Qed.
+
+Corollary ab_coherent d b alpha beta mx :
+  maximize (turn b) = mx -> ab d b alpha beta mx = abt d b alpha beta.
+Proof. intros <-. apply ab_abt. Qed.
+
+End TurnInv.
+
+(* ------------------------------------------------------------------ *)
+(** * 6. the key level: a cache keyed by (hash, alpha, beta, depth, maximizing) *)
+
+(* equality of the history-free part of the abstract position *)
+Definition same_pos_obs (b1 b2 : board) : Prop :=
+  Rules.cells (abstract b1) = Rules.cells (abstract b2) /\
+  Rules.prights (abstract b1) = Rules.prights (abstract b2) /\
+  Rules.pep (abstract b1) = Rules.pep (abstract b2).
+
+(* the current en-passant target is no square or exactly one board square *)
+Definition ep_top_wf (b : board) : Prop :=
+  top (ep_stack b) = 0 \/ exists i, i < 64 /\ top (ep_stack b) = bit i.
+
+Definition stacks_ne (b : board) : Prop := ep_stack b <> [] /\ cr_stack b <> [].
+
+Lemma map_squares_ext {A} (f g : N -> A) : map f squares = map g squares -> forall i, i < 64 -> f i = g i.
+Proof.
+  intros HM i Hi. apply in_squares in Hi. revert Hi. generalize squares as l, HM.
+  induction l as [|x r IH]; cbn [map In]; intros HM' Hin; [contradiction|].
+  injection HM' as Hx Hr. destruct Hin as [<-|Hin]; [exact Hx | exact (IH Hr Hin)].
+Qed.
+
+Lemma abs_ep_inj b1 b2 : ep_top_wf b1 -> ep_top_wf b2 -> abs_ep b1 = abs_ep b2 ->
+  top (ep_stack b1) = top (ep_stack b2).
+Proof.
+  unfold abs_ep. intros [Z1|[i [Li Ei]]] [Z2|[j [Lj Ej]]].
+  - intros _. rewrite Z1, Z2. reflexivity.
+  - rewrite Z1, Ej. rewrite is_empty_bit. cbn. discriminate.
+  - rewrite Z2, Ei. rewrite is_empty_bit. cbn. discriminate.
+  - rewrite Ei, Ej, !is_empty_bit, (tz_bit i Li), (tz_bit j Lj). intro HE. inversion HE. reflexivity.
+Qed.
+
+Lemma top_hd_error (l l' : list N) : l <> [] -> l' <> [] -> top l = top l' -> hd_error l = hd_error l'.
+Proof.
+  unfold top. destruct l as [|x r], l' as [|y r']; cbn [hd hd_error]; intros Hl Hl' HE; try contradiction.
+  rewrite HE. reflexivity.
+Qed.
+
+(** two well-formed boards with the same cell map, rights, en-passant square and side to move
+    have the same observable position *)
+Theorem obs_same_pos b1 b2 :
+  WF b1 -> WF b2 -> same_pos_obs b1 b2 -> turn b1 = turn b2 ->
+  stacks_ne b1 -> stacks_ne b2 -> ep_top_wf b1 -> ep_top_wf b2 -> same_pos b1 b2.
+Proof.
+  intros W1 W2 (Hc & Hr & He) Ht [Ne1 Nc1] [Ne2 Nc2] E1 E2.
+  rewrite !cells_abstract in Hc. rewrite !prights_abstract in Hr. rewrite !pep_abstract in He.
+  assert (HG : forall i, bget b1 i = bget b2 i).
+  { intro i. destruct (N.lt_ge_cases i 64) as [Li|Gi].
+    - exact (map_squares_ext _ _ Hc i Li).
+    - rewrite (bget_ge64 b1 i W1 Gi), (bget_ge64 b2 i W2 Gi). reflexivity. }
+  destruct (WF_sets_ext b1 b2 W1 W2 HG) as [Hw Hb].
+  split; [exact Hw|]. split; [exact Hb|]. split; [exact Ht|]. split.
+  - apply top_hd_error; try assumption. apply abs_ep_inj; assumption.
+  - apply top_hd_error; assumption.
+Qed.
+
+(* the converse needs nothing *)
+Lemma hd_error_top (l l' : list N) : hd_error l = hd_error l' -> top l = top l'.
+Proof. unfold top. destruct l, l'; cbn [hd_error hd]; intro HE; try discriminate; congruence. Qed.
+
+Theorem same_pos_obs_of b1 b2 : same_pos b1 b2 -> same_pos_obs b1 b2.
+Proof.
+  intros HP. pose proof (same_pos_sets _ _ HP) as HS. destruct HP as (_ & _ & _ & He & Hc).
+  unfold same_pos_obs. rewrite !cells_abstract, !prights_abstract, !pep_abstract.
+  split; [rewrite (bget_congr _ _ HS); reflexivity|].
+  split; [apply hd_error_top, Hc|]. unfold abs_ep. rewrite (hd_error_top _ _ He). reflexivity.
+Qed.
+
+Section Keys.
+Variable T : ztable.
+Variables rook_t bishop_t : N -> N -> N.
+
+(** C05 at this level: boards with the same observable position carry the same key *)
+Theorem same_pos_same_key b1 b2 : KeyInv T b1 -> KeyInv T b2 -> same_pos b1 b2 -> hash b1 = hash b2.
+Proof.
+  intros K1 K2 HP. destruct (same_pos_obs_of _ _ HP) as (Hc & Hr & He).
+  apply (key_history_independent T b1 b2 K1 K2 Hc Hr He).
+Qed.
+
+(* on the set S of boards the engine visits, equal keys (and equal side to move) mean equal
+   observable position: what a cache keyed by the hash silently assumes *)
+Definition collision_free (S : board -> Prop) : Prop :=
+  forall b1 b2, S b1 -> S b2 -> hash b1 = hash b2 -> turn b1 = turn b2 -> same_pos_obs b1 b2.
+
+Definition searchable (d : nat) (b : board) : Prop :=
+  WF b /\ far d b /\ ep_top_wf b /\ stacks_ne b.
+
+(** the [key_det] premise of Interleave.v for the engine's search key
+    (hash, alpha, beta, depth, maximizing): on a collision-free set of searchable boards, two
+    boards with the same key and the same side to move have the same search outcome *)
+Theorem ab_key_det (S : board -> Prop) d b1 b2 alpha beta mx :
+  collision_free S -> S b1 -> S b2 -> searchable d b1 -> searchable d b2 ->
+  hash b1 = hash b2 -> turn b1 = turn b2 ->
+  ab_value T rook_t bishop_t d b1 alpha beta mx = ab_value T rook_t bishop_t d b2 alpha beta mx
+  /\ kind (Search.ab T rook_t bishop_t d b1 alpha beta mx) = kind (Search.ab T rook_t bishop_t d b2 alpha beta mx).
+Proof.
+  intros CF S1 S2 (W1 & F1 & E1 & N1) (W2 & F2 & E2 & N2) HH HT.
+  pose proof (obs_same_pos b1 b2 W1 W2 (CF b1 b2 S1 S2 HH HT) HT N1 N2 E1 E2) as HP.
+  split; [apply ab_value_congr; assumption | apply ab_kind; assumption].
+Qed.
+
+(* with the side to move read off the key's [maximizing] component *)
+Corollary ab_key_det_mx (S : board -> Prop) d b1 b2 alpha beta :
+  collision_free S -> S b1 -> S b2 -> searchable d b1 -> searchable d b2 ->
+  hash b1 = hash b2 -> maximize (turn b1) = maximize (turn b2) ->
+  ab_value T rook_t bishop_t d b1 alpha beta (maximize (turn b1))
+  = ab_value T rook_t bishop_t d b2 alpha beta (maximize (turn b2)).
+Proof.
+  intros CF S1 S2 HS1 HS2 HH HM.
+  assert (HT : turn b1 = turn b2) by (destruct (turn b1), (turn b2); cbn [maximize] in HM; congruence).
+  rewrite HT. apply (ab_key_det S d b1 b2 alpha beta _ CF S1 S2 HS1 HS2 HH HT).
+Qed.
+
+End Keys.
+
+(* ------------------------------------------------------------------ *)
+(** * non-vacuity: two different histories, one observable position *)
+
+(* the game loop's make: apply, then pass the move *)
+Definition play (T : ztable) (ms : list cmove) (b : board) : res board :=
+  fold_left (fun r m => let* b0 := r in let* b1 := apply_move T m b0 in Ok (toggle_turn b1)) ms (Ok b).
+
+(* 1.e3 e6 2.e4 e5 *)
+Definition line_a : list cmove := [Std 12 20 None; Std 52 44 None; Std 20 28 None; Std 44 36 None].
+(* 1.e4 e5 2.Nf3 Nf6 3.Ng1 Ng8 *)
+Definition line_b : list cmove :=
+  [Std 12 28 None; Std 52 36 None; Std 6 21 None; Std 62 45 None; Std 21 6 None; Std 45 62 None].
+
+Definition board_a : board :=
+  match play example_table line_a (start_board example_table) with Ok b => b | _ => board_new end.
+Definition board_b : board :=
+  match play example_table line_b (start_board example_table) with Ok b => b | _ => board_new end.
+
+Example two_histories :
+  play example_table line_a (start_board example_table) = Ok board_a
+  /\ play example_table line_b (start_board example_table) = Ok board_b
+  /\ same_pos board_a board_b
+  /\ hm_stack board_a = [0; 0; 0; 0; 0] /\ hm_stack board_b = [4; 3; 2; 1; 0; 0; 0]
+  /\ fullmove board_a = 5 /\ fullmove board_b = 7
+  /\ ep_stack board_a = [0; 0; 0; 0; 0] /\ ep_stack board_b = [0; 0; 0; 0; bit 44; bit 20; 0]
+  /\ hash board_a = hash board_b
+  /\ wf_b board_a = true /\ wf_b board_b = true.
+Proof. vm_compute. repeat split; reflexivity. Qed.
+
+Example two_histories_far :
+  (far 3 board_a /\ far 3 board_b) /\ (fine 1 board_a /\ fine 1 board_b)
+  /\ (quiet board_a /\ quiet board_b) /\ (ep_top_wf board_a /\ ep_top_wf board_b)
+  /\ (stacks_ne board_a /\ stacks_ne board_b) /\ (WF board_a /\ WF board_b).
+Proof.
+  assert (HA : hm_stack board_a = [0; 0; 0; 0; 0] /\ fullmove board_a = 5 /\ seen_stack board_a = [1]
+               /\ ep_stack board_a = [0; 0; 0; 0; 0] /\ cr_stack board_a = [15; 15; 15; 15; 15])
+    by (vm_compute; repeat split; reflexivity).
+  assert (HB : hm_stack board_b = [4; 3; 2; 1; 0; 0; 0] /\ fullmove board_b = 7 /\ seen_stack board_b = [1]
+               /\ ep_stack board_b = [0; 0; 0; 0; 17592186044416; 1048576; 0]
+               /\ cr_stack board_b = [15; 15; 15; 15; 15; 15; 15])
+    by (vm_compute; repeat split; reflexivity).
+  destruct HA as (Ah & Af & As & Ae & Ac). destruct HB as (Bh & Bf & Bs & Be & Bc).
+  split; [|split; [|split; [|split; [|split]]]].
+  - unfold far. rewrite Ah, Af, As, Bh, Bf, Bs. unfold FULLMOVE_MAX. cbn [hd].
+    repeat split; try discriminate; lia.
+  - unfold fine. rewrite Ah, Af, Bh, Bf. unfold U8_MAX, FULLMOVE_MAX. cbn [hd].
+    repeat split; try discriminate; lia.
+  - unfold quiet. rewrite Ah, As, Bh, Bs. cbn [hd]. repeat split; try discriminate; lia.
+  - unfold ep_top_wf, top. rewrite Ae, Be. cbn [hd]. split; left; reflexivity.
+  - unfold stacks_ne. rewrite Ae, Ac, Be, Bc. repeat split; discriminate.
+  - split; apply wf_b_WF; vm_compute; reflexivity.
+Qed.
+
+(* the theorems fire on them: with the ray-walk sliders, a depth-1 search from either board *)
+Example two_histories_search :
+  exists v x1 x2,
+    Search.ab example_table rook_ref bishop_ref 1 board_a I16_MIN I16_MAX true = Ok (v, x1)
+    /\ Search.ab example_table rook_ref bishop_ref 1 board_b I16_MIN I16_MAX true = Ok (v, x2).
+Proof. vm_compute. do 3 eexists. split; reflexivity. Qed.
+
+Print Assumptions apply_move_rel.
+Print Assumptions undo_move_rel.
+Print Assumptions gen_moves_congr.
+Print Assumptions gen_annotated_congr.
+Print Assumptions score_congr.
+Print Assumptions ab_congr.
+Print Assumptions mm_congr.
+Print Assumptions root_values_congr.
+Print Assumptions search_congr.
+Print Assumptions ab_key_det.
+Print Assumptions two_histories_search.
+Print Assumptions ab_abt.
+Print Assumptions obs_same_pos.
+Print Assumptions undo_move_Rt.
